@@ -112,7 +112,7 @@ def build(F):
 
     m.sym = S.Sym(F, fn, is_effect=lambda callee, args, node, st: callee in CBOR_DE, inline=inline)
     try:
-        paths = m.sym.run()
+        paths = m.sym.run(split_result=True)
     except S.TooManyPaths:
         m.error = "Request::deserialize has too many control-flow paths to enumerate"
         F._dispatch_model = m
